@@ -1,4 +1,7 @@
 mod align;
+mod bfam;
+mod bprops;
+mod engine_b;
 mod c09;
 mod front;
 mod stats;
@@ -14,6 +17,13 @@ fn main() {
         .and_then(|i| args.get(i + 1).cloned());
     let code = match id {
         "C09" => c09::run(replay),
+        "C01" => bprops::run("C01", replay),
+        "C02" => bprops::run("C02", replay),
+        "C03" => bprops::run("C03", replay),
+        "C04" => bprops::run("C04", replay),
+        "C06" => bprops::run("C06", replay),
+        "C11" => bprops::run("C11", replay),
+        "C16" => bprops::run("C16", replay),
         "count" => {
             stats::count_families(&args[2..]);
             0
